@@ -56,6 +56,9 @@ def random_instruction(w: World, sim, vid: str, rng: random.Random):
         return I.DispatchBaseInstruction(vid, pick(sorted(sim.bases.keys())))
     if kind == "repos":
         c = rng.choice(w.cells)
+        r = rng.random()
+        if r < 0.12:
+            return I.RepositionInstruction(vid, rng.choice(["garbage", "a-b-c", f"{c}-nocell", ""]))
         return I.RepositionInstruction(vid, f"{c}-{c}")
     if kind == "reserve":
         return I.ReserveBaseInstruction(vid, pick(sorted(sim.bases.keys()), bases_here))
@@ -78,7 +81,7 @@ def controller(w: World, sim, rng: random.Random, p_instr: float) -> List[Any]:
 
 
 def run_history(w: World, rng: random.Random, steps: int, *, p_instr: float = 0.45, p_req: float = 0.5,
-                tag: str = "") -> List[Dict[str, Any]]:
+                p_probe: float = 0.5, tag: str = "") -> List[Dict[str, Any]]:
     """returns protocol records; each has `id` = (tag, step, phase)"""
     sim = w.sim0
     env = w.env
@@ -96,6 +99,30 @@ def run_history(w: World, rng: random.Random, steps: int, *, p_instr: float = 0.
             if rng.random() < 0.3:
                 sim, _ = cancel.update(sim, env)
             env.reporter.reports = []
+            # --- probe (C09): one instruction applied alone to the current state, result discarded ---
+            if sim.vehicles and rng.random() < p_probe:
+                pv = rng.choice(sorted(sim.vehicles.keys()))
+                pi = random_instruction(w, sim, pv, rng)
+                oracle.reset()
+                probe_raised = False
+                try:
+                    probe_post = apply_instructions(sim, env, (pi,))
+                except Exception:
+                    probe_raised = True
+                recs.append(
+                    {
+                        "op": "apply",
+                        "probe": True,
+                        "id": f"{tag}:{k}:probe",
+                        "pre": enc_sim(n, sim),
+                        "instrs": [enc_instr(n, pi)],
+                        "post": None if probe_raised else enc_sim(n, probe_post),
+                        "events": enc_events(n, env.reporter.reports),
+                        "oracle": oracle.encode(n),
+                        "skip": oracle.boundary_hit,
+                    }
+                )
+                env.reporter.reports = []
             # --- instruction phase ---
             instrs = controller(w, sim, rng, p_instr)
             oracle.reset()
